@@ -107,7 +107,10 @@ def generate(rng, tier):
     from sim.ramses import World
 
     leaves = World(p).leaves()
-    return {"world": p, "selections": [gen_selection(rng, p, leaves) for _ in range(rng.choice([1, 2, 3]))]}
+    sels = [gen_selection(rng, p, leaves) for _ in range(rng.choice([1, 2, 3]))]
+    for s in sels:
+        s["warm"] = rng.random() < 0.25
+    return {"world": p, "selections": sels}
 
 
 def describe(case):
@@ -165,6 +168,13 @@ def execute(case, stats):
             if sel["cpu_list"] is not None:
                 kw["cpu_list"] = list(sel["cpu_list"])
             site = "cpu_list" if sel["cpu_list"] is not None else ("hilbert-preselection" if (w.hilbert and sel["intervals"]) else "cell-predicates")
+            if sel.get("warm") and kw:
+                # the caller's argument objects (select dictionary, cpu_list) were already used for a load by another dataset
+                stats.inc("probe.argument_objects_used_by_an_earlier_load")
+                try:
+                    disk.load(**kw)
+                except Exception:
+                    pass  # the judged load below reports
             try:
                 seam = FsSeam()
                 sub, out = disk.load(seam=seam, **kw)
@@ -229,7 +239,7 @@ def measure(case):
     sels = case["selections"]
     return (len(sels), p["ncpu"], p["levelmax"], sum(len(s["intervals"]) + len(s["values"]) + (1 if s["cpu_list"] else 0) for s in sels),
             p["maxcells"], len(p["hydro_vars"]) + sum(1 for s in sels if s.get("level")), int(bool(p["grav"])) + int(bool(p["rt_vars"])) + int(p["sink"] is not None), p["nboundary"],
-            int(p["units"] != [1.0, 1.0, 1.0]), int(p["ghost_p"] * 10), p["noutput"], int(p["key_quad"]), p["levelmin"])
+            int(p["units"] != [1.0, 1.0, 1.0]), int(p["ghost_p"] * 10), p["noutput"], int(p["key_quad"]), p["levelmin"], sum(1 for s in sels if s.get("warm")))
 
 
 def reductions(case, viol):
@@ -260,3 +270,5 @@ def reductions(case, viol):
             yield dict(case, selections=sels[:i] + [d] + sels[i + 1:])
         if s["cpu_list"] and (s["intervals"] or s["values"]):
             yield dict(case, selections=sels[:i] + [dict(s, cpu_list=None)] + sels[i + 1:])
+        if s.get("warm"):
+            yield dict(case, selections=sels[:i] + [dict(s, warm=False)] + sels[i + 1:])
